@@ -1,5 +1,6 @@
 //! vfront: checks of the asn1rs front end (tokenizer, parser, resolver, model conversions, code generators).
 mod c07;
+mod c12;
 mod c13;
 mod c15;
 pub mod front;
@@ -10,6 +11,7 @@ fn main() {
     let ctx = vcore::harness::Ctx::from_args(&args);
     let code = match ctx.prop.as_str() {
         "C07" => c07::run(ctx),
+        "C12" => c12::run(ctx),
         "C13" => c13::run(ctx),
         "C15" => c15::run(ctx),
         other => {
